@@ -35,6 +35,7 @@ def run(prog, rep, tier='quick', config='default'):
     r4b(prog, rep, config)
     r4c(prog, rep)
     r4a2(prog, rep)
+    r4d(prog, rep)
 
 
 # ------------------------------------------------------------------------------------------------ R4a
@@ -340,3 +341,40 @@ def extra_thorough(repo):
     weakened = [f for f in r['failures'] if 'COMPILES' in f]
     broken = [f for f in r['failures'] if 'COMPILES' not in f]
     return {'witnesses': r['witnesses'], 'encapsulation_weakened': weakened, 'failures': broken}
+
+
+# ------------------------------------------------------------------------------------------------ R4d
+def r4d(prog, rep):
+    """"registered affiliates never show a cost base or a capital gain": in the ledger step a cost base / gain is only ever
+    produced on the Some edge of the previous cost base (a registered affiliate's status carries None)."""
+    from props import ledger
+    L = ledger.Ledger(prog)
+    if not rep.anchor('delta_for_tx (ledger step)', L.ok and L.fn):
+        return
+    f = L.fn
+    n = 0
+    for what, locs in (('cost base', L.acb_locals), ('capital gain', L.gain_locals)):
+        for (bb, node, kind) in L.assignments(locs):
+            if kind != 'stmt':
+                continue
+            r = node['r']
+            o = mir.provenance(f, r['ops'][0], pass_through=set()) if r.get('ops') and is_place(r['ops'][0]) else None
+            is_some = (r['rv'] == 'agg' and r['kind'].endswith('Option::Some')) or (o is not None and any(a.endswith('Option::Some') for a in o.aggs))
+            if not is_some:
+                continue
+            n += 1
+            guarded = False
+            for (sbb, discr, vals, neg) in f.conditions_at(bb):
+                d = mir.provenance(f, discr, follow_all_call_args=True)
+                on_some = (vals == [1]) or (vals is None and 1 not in (neg or []) and 0 in (neg or []))
+                if (any(fl == 'total_acb' for of, fl in d.fields) or d.has_call(r'per_share_acb$')) and on_some:
+                    guarded = True
+            arm = [a for a, rg in L.region.items() if bb in rg]
+            k = 'no-%s-without-previous-cost-base|%s#%d' % (what.replace(' ', '-'), arm[0] if arm else '?', n)
+            if guarded:
+                rep.ok('R4d', k, where=f.where(node), fn=f.name, detail='a %s is produced only when the previous status has a cost base (non-registered affiliate)' % what)
+            else:
+                rep.violation('R4d', k, where=f.where(node), fn=f.name,
+                              detail='a %s can be produced for an affiliate whose previous status has no cost base (registered affiliates must never show one)' % what)
+    if n < 4:
+        rep.violation('R4d', 'anchor-lost:some-assignments', fn=f.name, detail='anchor lost: only %d Some(..) assignments of cost base / gain found' % n)
